@@ -270,6 +270,35 @@ pub fn run() -> i32 {
     r.boxes.push(json!({"box": "modifiers on an environment element (before / after the target, context / exception)", "rules": ejobs.len(), "cases": te.evals, "fired": te.nt}));
     r.guard(te.nt * 10 > te.evals, "environment box: at least 10% of the cases fire");
     tot.evals += te.evals; tot.nt += te.nt; tot.viols.extend(te.viols); tot.outs.extend(te.outs);
+    // ---- box 3: two neighbouring targets in one rule, the first output changing the length of its target (so that the second target moves), written
+    // as a matrix, as the literal, and through a variable: `V=1 n > 1:[-long] [+long]` on /t3.s<a-run>n.k/ — each target ends up as the table says
+    let first_outs: [(&str, &str, u8); 9] = [("V", "[-long]", 2), ("V", "[+long]", 1), ("V", "[+overlong]", 3), ("V", "[-overlong]", 4), ("V", "a", 2), ("V", "a:[+long]", 5), ("V=1", "1:[-long]", 2), ("V=1", "1:[+long]", 1), ("V=1", "1:[-overlong]", 4)];
+    let second_outs: [(&str, u8); 4] = [("[+long]", 1), ("[-long]", 2), ("[+overlong]", 3), ("[+voice]", 0)];
+    let mut t3 = acc();
+    for (fi, fo, fk) in first_outs { for (so, sk) in second_outs {
+        let text = format!("{} n > {} {}", fi, fo, so);
+        let Out::Ok(Ok(compiled)) = guarded(5_000_000, || av::compile(&[group(&[&text])])) else { t3.viols.push(Viol { key: format!("compile|{}", text), desc: format!("`{}` does not compile", text), case: json!({"rule": text}) }); continue; };
+        for len in 1..=3u8 { for stress in 0..3u8 { for tone in TONES {
+            let st = St { len, stress, tone };
+            let w = build(&st, 1);
+            let lenf = |k: u8, l: usize| -> usize { match k { 1 => l.max(2), 2 => 1, 3 => 3, 4 => l.min(2), 5 => 2, _ => l } };
+            let (a, n) = (seg("a"), seg("n"));
+            let na = lenf(fk, len as usize);
+            let nn = lenf(sk, 1);
+            let nseg = if so == "[+voice]" { model::set_feat(n, 11, true) } else { n };
+            let mut mid = vec![seg("s")]; mid.extend(std::iter::repeat(a).take(na)); mid.extend(std::iter::repeat(nseg).take(nn));
+            let mut e = w.clone(); e[1].segs = mid;
+            t3.evals += 1;
+            match run_one(&compiled, &w, &text) {
+                Out::Ok(Ok(g)) if g == e => { if e != w { t3.nt += 1; } t3.outs.insert(hash64(&g)); }
+                Out::Ok(Ok(g)) => t3.viols.push(Viol { key: format!("two-targets|{}|len{},stress{},tone{}", text, len, stress, tone), desc: format!("`{}` on /{}/: the vowel becomes {} cop{} long and the /n/ {}, i.e. /{}/; got /{}/", text, show_cw(&w), na, if na == 1 { "y" } else { "ies" }, nn, show_cw(&e), show_cw(&g)), case: json!({"env": true, "rule": text, "word": cw_json(&w), "expected": cw_json(&e)}) }),
+                Out::Ok(Err(er)) => t3.viols.push(Viol { key: format!("two-targets|{}|error", text), desc: format!("`{}` on /{}/: error {}", text, show_cw(&w), er), case: json!({"env": true, "rule": text, "word": cw_json(&w), "expected": cw_json(&e)}) }),
+                o => t3.viols.push(Viol { key: format!("two-targets|crash|{}", text), desc: o.crash_desc().unwrap(), case: json!({"env": true, "rule": text, "word": cw_json(&w), "expected": cw_json(&e)}) }),
+            }
+        } } }
+    } }
+    r.boxes.push(json!({"box": "two neighbouring targets, the first changing length (matrix / literal / variable outputs)", "rules": first_outs.len() * second_outs.len(), "cases": t3.evals, "changed": t3.nt}));
+    tot.evals += t3.evals; tot.nt += t3.nt; tot.viols.extend(t3.viols); tot.outs.extend(t3.outs);
     r.evaluations = tot.evals; r.transitions = tot.evals; r.validated = tot.evals; r.nontrivial = tot.nt; r.states = tot.outs;
     r.boxes.push(json!({"box": "kinds x roles x modifiers x states x positions", "rules": jobs.len(), "cases": tot.evals, "model_predicts_change": tot.nt}));
     r.guard(tot.nt * 20 > tot.evals, "at least 5% of cases change the word");
